@@ -85,10 +85,13 @@ def gen_case(rng, idx, api, mode):
     var = [k for k in keys if k not in constants]
     tangent = {k: [int(x) for x in rng.integers(-2, 3, size=s)] for k, s in zip(keys, sizes) if k in var}
     newpos = {k: [int(x) for x in rng.integers(-2, 3, size=s)] for k, s in zip(keys, sizes) if k in var}
+    oldpos = {k: [int(x) for x in rng.integers(-2, 3, size=s)] for k, s in zip(keys, sizes)}
+    if all(oldpos[k] == mean[k] for k in keys):
+        oldpos[keys[0]][0] += 1
     return {"idx": int(idx), "api": api, "mode": mode, "keys": keys, "sizes": sizes, "m": m,
             "A": A.tolist(), "C": Cm.tolist(), "D": Dm.tolist(), "w": w, "d": [int(x) for x in d],
             "mean": mean, "mirrored": mirrored, "npairs": npairs, "constants": constants,
-            "point_estimates": point_est, "residuals": residuals, "tangent": tangent, "newpos": newpos,
+            "point_estimates": point_est, "residuals": residuals, "tangent": tangent, "newpos": newpos, "oldpos": oldpos,
             "linear": linear}
 
 
@@ -306,6 +309,18 @@ def run_jax(case, seed):
     out["moved_value"] = float(v3)
     out["moved_gradient_full"] = vdict(g3)
     out["moved_metric_full"] = vdict(opt.kl_metric(st.x, tang_full, primals_samples=smp))
+    # two-argument form Samples.at(new, old_pos) with old_pos != stored position: the residuals become
+    # (absolute samples - old_pos); KL value / gradient / metric through the moved samples
+    oldp = {k: [float(x) for x in case.get("oldpos", case["mean"])[k]] for k in keys}
+    old_vec = jft.Vector({k: jnp.asarray(np.asarray(oldp[k], dtype=np.float64)) for k in keys})
+    smp4 = smp.at(st.x, old_pos=old_vec)
+    out["old_residuals"] = [{k: np.asarray(smp4._samples.tree[k][i], dtype=np.float64).tolist() for k in keys}
+                            for i in range(len(smp4))]
+    out["old_pos_new"] = vdict(smp4.pos)
+    v4, g4 = opt.kl_value_and_grad(st.x, primals_samples=smp4)
+    out["old_value"] = float(v4)
+    out["old_gradient_full"] = vdict(g4)
+    out["old_metric_full"] = vdict(opt.kl_metric(st.x, tang_full, primals_samples=smp4))
     out["samples"] = [{k: np.asarray(smp2.samples.tree[k][i], dtype=np.float64).tolist() for k in keys}
                       for i in range(len(smp2))]
     # direct averaging with the Hamiltonian of the implementation
@@ -328,6 +343,17 @@ def run_jax(case, seed):
         vals.append(float(vv))
         grads.append(vdict(gg))
         mets.append(vdict(ham.metric(s, tang_full)))
+    vals4, grads4, mets4 = [], [], []
+    for r in res:
+        s = jft.Vector({k: st.x.tree[k] + (pos.tree[k] + jnp.asarray(np.asarray(r[k], dtype=np.float64)) - old_vec.tree[k])
+                        for k in keys})
+        vv, gg = jax.value_and_grad(ham)(s)
+        vals4.append(float(vv))
+        grads4.append(vdict(gg))
+        mets4.append(vdict(ham.metric(s, tang_full)))
+    out["direct_old"] = {"value": float(np.mean(vals4)),
+                         "gradient": {k: np.mean([g[k] for g in grads4], axis=0).tolist() for k in keys},
+                         "metric": {k: np.mean([g[k] for g in mets4], axis=0).tolist() for k in keys}}
     out["direct_moved"] = {"value": float(np.mean(vals)),
                            "gradient": {k: np.mean([g[k] for g in grads], axis=0).tolist() for k in keys},
                            "metric": {k: np.mean([g[k] for g in mets], axis=0).tolist() for k in keys}}
@@ -417,6 +443,12 @@ def coq_checks(case, out):
         chk.append(("at.gradient", "ocmp_mf %s (q_jax_grad (%s) [] %s %s) %s" % (tol, M, newmean, res, qmf(case, out["at_gradient_full"]))))
         chk.append(("samples", "lmfcmp %s (jax_samples Q qadd qsub %s %s) %s" % (
             tol, newmean, res, C.clist([qmf(case, s) for s in out["samples"]]))))
+        oldq = qmf(case, case.get("oldpos", case["mean"]))
+        res4 = "(jax_at_old Q qadd qsub %s %s %s)" % (mean, oldq, res)
+        chk.append(("at_old.residuals", "lmfcmp %s %s %s" % (tol, res4, C.clist([qmf(case, r) for r in out["old_residuals"]]))))
+        chk.append(("at_old.value", "ocmp_T %s (q_jax_value (%s) %s %s) %s" % (tol, M, newmean, res4, C.cq(out["old_value"]))))
+        chk.append(("at_old.gradient", "ocmp_mf %s (q_jax_grad (%s) [] %s %s) %s" % (tol, M, newmean, res4, qmf(case, out["old_gradient_full"]))))
+        chk.append(("at_old.metric", "ocmp_mf %s (q_jax_metric (%s) [] %s %s %s) %s" % (tol, M, newmean, res4, x, qmf(case, out["old_metric_full"]))))
         chk.append(("moved.value", "ocmp_T %s (q_jax_value (%s) %s %s) %s" % (tol, M, newmean, res, C.cq(out["moved_value"]))))
         chk.append(("moved.gradient", "ocmp_mf %s (q_jax_grad (%s) [] %s %s) %s" % (tol, M, newmean, res, qmf(case, out["moved_gradient_full"]))))
         chk.append(("moved.metric", "ocmp_mf %s (q_jax_metric (%s) [] %s %s %s) %s" % (tol, M, newmean, res, x, qmf(case, out["moved_metric_full"]))))
@@ -470,6 +502,21 @@ def direct_failure(case, out):
     for k in var:
         if out["position"][k] != [float(x) for x in case["mean"][k]]:
             return "optimised position differs from the mean on key %s" % k
+    if "direct_old" in out:
+        do = out["direct_old"]
+        want = [{k: (np.asarray(case["mean"][k], dtype=np.float64) + np.asarray(r[k], dtype=np.float64)
+                     - np.asarray(case.get("oldpos", case["mean"])[k], dtype=np.float64)) for k in case["keys"]} for r in out["residuals"]]
+        for w, got in zip(want, out["old_residuals"]):
+            for k in case["keys"]:
+                if not _close(got[k], w[k]):
+                    return "Samples.at(new, old_pos): residuals are not (absolute samples - old_pos) on key %s" % k
+        if not _close(out["old_value"], do["value"]):
+            return "KL value through Samples.at(new, old_pos) is not the average over new + (sample_i - old_pos)"
+        for k in case["keys"]:
+            if not _close(out["old_gradient_full"][k], do["gradient"][k]):
+                return "KL gradient[%s] through Samples.at(new, old_pos) is not the average over new + (sample_i - old_pos)" % k
+            if not _close(out["old_metric_full"][k], do["metric"][k]):
+                return "KL metric[%s] through Samples.at(new, old_pos) is not the average over new + (sample_i - old_pos)" % k
     if "direct_moved" in out:
         dm = out["direct_moved"]
         if not _close(out["moved_value"], dm["value"]) or not _close(out["at_value"], dm["value"]):
